@@ -577,9 +577,47 @@ func (w *c18World) check(stage string) {
 			if e.id.Kind == "histogram" { // timers are not part of GetAllMetrics
 				series(e, "histogram", e.id.Name+"_count", float64(exp), "observation count")
 				series(e, "histogram", e.id.Name+"_sum", float64(expSum), "observation sum")
+				// the percentiles as exported (also what the performance report shows) never decrease as the percentile grows
+				if !w.ambig && exp > 0 {
+					prev, prevName := math.Inf(-1), ""
+					var shown []float64
+					for _, sfx := range []string{"_p50", "_p90", "_p95", "_p99"} {
+						vals := groups[c18Canon("histogram", e.id.Name+sfx, e.id.Tags)]
+						if len(vals) != 1 {
+							break
+						}
+						shown = append(shown, vals[0])
+						if !(vals[0] >= prev) {
+							w.violate("percentile-order", "Collector.GetAllMetrics", e,
+								fmt.Sprintf("%s: exported %s = %v is smaller than %s = %v (%d observations)", e.id.show(), e.id.Name+sfx, vals[0], prevName, prev, exp),
+								map[string]interface{}{"exported_p50_p90_p95_p99": shown, "stage": stage})
+							break
+						}
+						prev, prevName = vals[0], e.id.Name+sfx
+					}
+					if len(shown) == 4 {
+						w.ctx.R.Path("exported-percentile-checks", 1)
+						if shown[2] >= 10000 {
+							w.ctx.R.Path("exported-percentiles-two-in-the-overflow-bucket", 1)
+						}
+					}
+				}
 			}
 		}
 	}
+}
+
+// reset: Collector.Reset() starts a new epoch: every series starts from nothing, handles of the old epoch are no longer used.
+func (w *c18World) reset() {
+	w.col.Reset()
+	for _, e := range w.ents {
+		atomic.StoreInt64(&e.n, 0)
+		atomic.StoreInt64(&e.sum, 0)
+		atomic.StoreInt32(&e.sumUnknown, 0)
+		e.ptrs = nil
+	}
+	w.owner = map[interface{}]int{}
+	w.ctx.R.Path("collector-resets", 1)
 }
 
 // finish records coverage for the world.
@@ -1013,6 +1051,28 @@ func c18SeqCollectorRound(ctx *Ctx, r *rand.Rand, rd int) {
 		ctx.R.Eval(int64(done))
 		w.events += int64(done)
 		ctx.R.Guard("C18", "Collector.GetAllMetrics", cs, func() { w.check(fmt.Sprintf("after batch %d", b)) })
+		if b+1 < batches && r.Intn(2) == 0 {
+			// Reset between batches; the series used last before it is the one used first after it (and then others, and it again)
+			ctx.R.Guard("C18", "Collector.Reset", cs, func() {
+				e := w.ents[r.Intn(len(w.ents))]
+				for _, x := range w.ents { // prefer a series without tags (the most common kind in the application)
+					if len(x.id.keys) == 0 && r.Intn(3) > 0 {
+						e = x
+						break
+					}
+				}
+				w.op(r, e, loc, false)
+				w.merge(loc)
+				w.reset()
+				w.op(r, e, loc, false)
+				w.merge(loc)
+				w.op(r, w.ents[r.Intn(len(w.ents))], loc, false)
+				w.merge(loc)
+				w.op(r, e, loc, false)
+				w.merge(loc)
+				w.check(fmt.Sprintf("after Reset following batch %d", b))
+			})
+		}
 	}
 	c18AddExtra(ctx, "events", float64(w.events))
 	w.finish()
